@@ -52,7 +52,7 @@ func execBurst(plan *Plan, refs *refTable) *runResult {
 			for j := range bt.plan.Ops {
 				op := &bt.plan.Ops[j]
 				var sh *subject
-				if op.Shared >= 0 && op.Shared < len(s.shared) {
+				if op.Shared >= 0 && op.Shared < len(s.shared) && op.Key.Variant != vEditSQL {
 					sh = s.shared[op.Shared].sub
 				}
 				r := runOpX(op.Key, sh, false, op.Fresh)
@@ -119,6 +119,9 @@ func execBurst(plan *Plan, refs *refTable) *runResult {
 	}
 	for _, r := range s.shared {
 		s.checkRetained(r, "after the burst")
+	}
+	for _, msg := range drainInvariants() {
+		s.fails = append(s.fails, failure{Oracle: "O7", Detail: msg, Key: "burst"})
 	}
 	s.checkDisjoint()
 	res.Fails = s.fails
